@@ -1877,6 +1877,9 @@ class UserSpaceImpl(*_user_space_impl_base):
 
     def on_inherit(self, updater, bases, attr):
 
+        # ItemSpaces built from self hold copies of the members
+        self.clear_subs_rootitems()
+
         attrs = {
             "cells": self.on_del_cells,
             "own_refs": self.on_del_ref
